@@ -261,6 +261,11 @@ func runCheck(propID, repo, verif, tier string, verbose bool) int {
 	unknownCalls := map[string]int{}
 	inlined := map[string]bool{}
 	haveClause := map[string]bool{}
+	usedElsewhere := map[string]bool{} // contracts applied here whose function is not verified by this check
+	verifiedHere := map[string]bool{}
+	for _, u := range units {
+		verifiedHere[u.Key] = true
+	}
 	var deadReturns []string
 	for _, u := range units {
 		fe := fnEv{Name: shortKey(u.Key), Kind: u.Kind}
@@ -281,6 +286,15 @@ func runCheck(propID, repo, verif, tier string, verbose bool) int {
 		}
 		for k := range u.Enc.usedPurePkg {
 			purePkgs[k] = true
+		}
+		for k := range u.Enc.usedContracts {
+			fc := p.Contracts[k]
+			if fc == nil || fc.Trusted != "" || verifiedHere[k] {
+				continue
+			}
+			if fn := p.findFunc(k); fn != nil && len(fn.Blocks) > 0 && isRepoPkg(pkgPathOf(fn)) {
+				usedElsewhere[k] = true
+			}
 		}
 		for k, n := range u.Enc.unknownCalls {
 			unknownCalls[k] += n
@@ -496,6 +510,7 @@ func runCheck(propID, repo, verif, tier string, verbose bool) int {
 		"functions_under_contract": fns,
 		"undischarged":             undis,
 		"inlined_helpers":          inl,
+		"contracts_relied_on_proved_by_other_checks": shortKeys(usedElsewhere),
 		"bounded_standins":         boundedEv,
 		"discharged_by_backend":    bySolver,
 		"solver_seconds":           round3(solverSeconds),
@@ -549,7 +564,7 @@ func runCheck(propID, repo, verif, tier string, verbose bool) int {
 	data, _ := json.MarshalIndent(ev, "", " ")
 	os.WriteFile(evPath, data, 0o644)
 	fmt.Printf("%s: %d obligations, %d discharged, %d violations, %d known findings, %.1fs\n", propID, total, discharged, len(viols), len(dedup(knownHit)), time.Since(t0).Seconds())
-	if exit == 0 {
+	if exit == 0 && os.Getenv("GOVC_KEEP_WORK") == "" {
 		os.RemoveAll(work)
 	}
 	return exit
@@ -602,4 +617,13 @@ func runReplayFile(path, repo, verif string) int {
 	}
 	fmt.Println("no executable replay recorded for this obligation (solver output is in the file)")
 	return 1
+}
+
+func shortKeys(m map[string]bool) []string {
+	var out []string
+	for k := range m {
+		out = append(out, shortKey(k))
+	}
+	sort.Strings(out)
+	return out
 }
